@@ -18,7 +18,14 @@ def _with_state_lock(func):
 
     async def wrapper(obj: 'TransferState', *args, **kwargs):
         async with obj.transfer._state_lock:
-            result = await func(*args, **kwargs)
+            current = obj.transfer.state
+            if current is obj:
+                result = await func(*args, **kwargs)
+            else:
+                # The state changed while waiting for the lock: the transition
+                # should be evaluated for the current state of the transfer
+                transition = getattr(type(current), func.__name__)
+                result = await transition(current, *args, **kwargs)
         return result
 
     return wrapper
